@@ -146,12 +146,13 @@ func (e *Explorer) Run() {
 			defer sol.Close()
 			var infos map[*ssa.Function]*fnInfo
 			var ixc map[*ssa.Function]*Intrinsic
+			var mc map[methKey]Value
 			for {
 				p, ok := e.pop()
 				if !ok {
 					break
 				}
-				e.runOne(sol, p, &infos, &ixc)
+				e.runOne(sol, p, &infos, &ixc, &mc)
 				e.mu.Lock()
 				e.active--
 				over := (e.cfg.MaxPaths > 0 && e.Paths >= e.cfg.MaxPaths) || (!deadline.IsZero() && time.Now().After(deadline))
@@ -184,13 +185,14 @@ func prefixHash(p []Dec, seed int64) uint64 {
 	return h.Sum64()
 }
 
-func (e *Explorer) runOne(sol *smt.Solver, prefix []Dec, infos *map[*ssa.Function]*fnInfo, ixc *map[*ssa.Function]*Intrinsic) {
+func (e *Explorer) runOne(sol *smt.Solver, prefix []Dec, infos *map[*ssa.Function]*fnInfo, ixc *map[*ssa.Function]*Intrinsic, mc *map[methKey]Value) {
 	sol.Reset()
 	ctx := smt.NewCtx()
 	in := NewInterp(e.prog, ctx, sol)
 	if *infos != nil {
 		in.infos = *infos
 		in.ixCache = *ixc
+		in.methCache = *mc
 	}
 	in.Trace = e.cfg.Trace
 	in.HarnessName = e.cfg.Name
@@ -224,6 +226,7 @@ func (e *Explorer) runOne(sol *smt.Solver, prefix []Dec, infos *map[*ssa.Functio
 	}()
 	*infos = in.infos
 	*ixc = in.ixCache
+	*mc = in.methCache
 	// sample passing paths for native cross-validation
 	var sample *ReplayModel
 	var skey uint64
